@@ -126,6 +126,14 @@ impl<C: Ciphersuite> Lab<C> for ConcLab<C> {
     fn adv_scalar(&mut self, name: &str) -> Scalar<C> {
         self.named(name)
     }
+    fn adv_scalar_among(&mut self, name: &str, candidates: &[Scalar<C>]) -> Scalar<C> {
+        if let Some(k) = self.rng.model.get(&format!("among:{name}")) {
+            if let Some(c) = candidates.get(k[0] as usize) {
+                return *c;
+            }
+        }
+        self.named(name)
+    }
     fn adv_element(&mut self, name: &str) -> Element<C> {
         let s = self.named(&format!("dlog({name})"));
         g::<C>() * s
